@@ -2,10 +2,12 @@
 package tcpsim
 
 import (
+	"fmt"
 	"io"
 	"net"
 	"sync"
 	"sync/atomic"
+	"syscall"
 	"time"
 )
 
@@ -124,4 +126,42 @@ func (b *Backend) Close() {
 	for _, c := range conns {
 		c.Close()
 	}
+}
+
+// BlackHole returns an address on which connects time out (the emulation of a host that vanished): a listening socket with
+// a minimal accept queue that is never accepted from; once the queue is full the kernel drops further SYNs. ok is false when the
+// queue could not be filled on this platform.
+func BlackHole() (addr string, closeFn func(), ok bool) {
+	fd, err := syscall.Socket(syscall.AF_INET, syscall.SOCK_STREAM, 0)
+	if err != nil {
+		return "", func() {}, false
+	}
+	if err := syscall.Bind(fd, &syscall.SockaddrInet4{Addr: [4]byte{127, 0, 0, 1}}); err != nil {
+		syscall.Close(fd)
+		return "", func() {}, false
+	}
+	if err := syscall.Listen(fd, 0); err != nil {
+		syscall.Close(fd)
+		return "", func() {}, false
+	}
+	sa, _ := syscall.Getsockname(fd)
+	addr = fmt.Sprintf("127.0.0.1:%d", sa.(*syscall.SockaddrInet4).Port)
+	var conns []net.Conn
+	failures := 0
+	for i := 0; i < 64 && failures < 3; i++ {
+		c, err := net.DialTimeout("tcp", addr, 300*time.Millisecond)
+		if err != nil {
+			failures++
+			continue
+		}
+		failures = 0
+		conns = append(conns, c)
+	}
+	closeFn = func() {
+		for _, c := range conns {
+			c.Close()
+		}
+		syscall.Close(fd)
+	}
+	return addr, closeFn, failures >= 3
 }
